@@ -816,7 +816,7 @@ def _f12_case(rng=None, extra=None):
 
 
 def gen_cases(rng, tier):
-    n = 420 if tier == 'quick' else 6000
+    n = 900 if tier == 'quick' else 8000
     out = [_f12_case()]
     while len(out) < n:
         r = rng.random()
